@@ -14,7 +14,8 @@ one line, in the order it happened:
   (`bad:assumption-merge-wf`), and runs `introduceMerge` on `MergeTask.plan picked`;
 * `snap <epoch> <creator> newid=<sid>`: the snapshot file written for `epoch`; for creator `persistSnapshotMaybeMerge`
   the model computes `equivSnapshot`;
-* `read e=<epoch> k=<K>`: the model prints Count / match-all / `_id` lookups of its root of that epoch.
+* `read e=<epoch> k=<K>`: the model prints Count / match-all / `_id` lookups of its root of that epoch;
+* `pastroot <epoch>`: the root of that epoch as the implementation holds it NOW (a published root never changes).
 Every model result is the physical state (segments, deleted sets, documents) and must equal the implementation's.
 The verdict is the abstract-index oracle on the IMPLEMENTATION's output. -/
 open Bluge Bluge.Index
@@ -221,10 +222,8 @@ def c06step (st : DState) (op : String) (impl : String) : DState × String :=
         match grabbed.segs.find? (fun s => s.sid == sid), st.root.segs.find? (fun s => s.sid == sid) with
         | some s0, some s1 => s0.deleted.length < s1.deleted.length
         | _, _ => false
-      let goneMeanwhile := p.any fun (sid, _) => !st.root.sids.contains sid
       (install st r' st.spec "persist" ia, showRoot r' ++ sep ++ verdict ++ brs [
-        (true, "persist"), (p.isEmpty, "persist-nothing"), (pending, "persist swap with pending deletes"),
-        (goneMeanwhile, "persist: segment dropped before the swap")])
+        (true, "persist"), (p.isEmpty, "persist-nothing"), (pending, "persist swap with pending deletes")])
     | _, _, _ => (st, "bad-op" ++ sep ++ "bad:unparsable-persist")
   | ["merge", e, "unattributed"] =>
     match e.toNat?, implRoot with
@@ -317,6 +316,22 @@ def c06step (st : DState) (op : String) (impl : String) : DState × String :=
             "read: root built by introduceMerge with a segment with deletions before another"),
           (sn.spec.isEmpty, "empty-index")])
     | _, _ => (st, "bad-op" ++ sep ++ "bad:unparsable-read")
+  | ["pastroot", e] =>
+    match e.toNat? with
+    | some e =>
+      match findEpoch st e with
+      | none => (st, "-" ++ sep ++ "bad:unknown-epoch")
+      | some sn =>
+        let model := showRoot sn.root
+        let verdict :=
+          if model == impl then "ok"
+          else match implRoot with
+            | none => "bad:unparsable-root"
+            | some ir =>
+              let c := classify st ir.abs sn.spec
+              "bad:published-root-changed-after-installation" ++ (if c == "ok" then "" else " (" ++ c ++ ")")
+        (st, model ++ sep ++ verdict ++ brs [(true, "past root re-read")])
+    | none => (st, "bad-op" ++ sep ++ "bad:unparsable-pastroot")
   | ["end"] => (st, "closed" ++ sep ++ "ok")
   | "crash" :: _ => (st, "-" ++ sep ++ "bad:writer-process-crashed " ++ impl)
   | "batcherr" :: _ => (st, "-" ++ sep ++ "bad:batch-failed " ++ impl)
